@@ -161,6 +161,18 @@ def economy(draw, zones=(1, 3), horizon=(3, 5), want_cross=None, gold=True, fede
             if c['gov'] and c['gov']['kind'] in ('gold', 'gold_cb'):
                 gold_left -= 1
         spec['zones'].append(zone)
+    # sector codes that are contained in another sector's code of the same country (B in CB, RE in TRE, OV in GOV, ...):
+    # codes are matched whole, never by substring
+    for zone in spec['zones']:
+        for c in zone['countries']:
+            if draw(gen.chance(1, 5)):
+                nested = {'HH': 'B', 'HH2': 'RE', 'BUS': 'OV', 'CAP': 'C', 'TF': 'T'}
+                for h in c['hh']:
+                    h['code'] = nested.get(h['code'], h['code'])
+                for key in ('bus', 'cap', 'tax'):
+                    if c[key] is not None:
+                        c[key]['code'] = nested.get(c[key]['code'], c[key]['code'])
+                c['nested_codes'] = True
     # initial stocks: household wealth = - government wealth, per zone
     if ics and draw(gen.chance(1, 2)):
         for zone in spec['zones']:
@@ -199,6 +211,13 @@ def economy(draw, zones=(1, 3), horizon=(3, 5), want_cross=None, gold=True, fede
                                       'residual_explicit': draw(st.booleans())})
             if a[0] != b[0]:
                 need_ext = True
+    # which supplier of an importing market is the residual one (takes what the allocation rules leave): normally the
+    # domestic firm; where a market has a single import link it may be the FOREIGN firm, the domestic one then gets a
+    # fixed share of total supply
+    for l in spec['links']:
+        if l['kind'] == 'import':
+            same = [x for x in spec['links'] if x['kind'] == 'import' and x['src'] == l['src']]
+            l['residual'] = draw(st.sampled_from(['foreign', 'domestic', 'domestic'])) if len(same) == 1 else 'domestic'
     # 'end': the external sector is created last of all, after every sector has been declared and wired
     if need_ext:
         spec['external'] = draw(st.sampled_from(['first', 'middle', 'last', 'end']))
@@ -208,6 +227,8 @@ def economy(draw, zones=(1, 3), horizon=(3, 5), want_cross=None, gold=True, fede
         for z in spec['zones']:
             if draw(gen.chance(3, 4)):
                 spec['xr'][z['currency']] = draw(path(K, 50, 300))
+    # declaration order of the sectors: canonical, or a dependency-respecting shuffle driven by these keys
+    spec['order_keys'] = draw(st.lists(st.integers(0, 11), min_size=6, max_size=14)) if draw(st.booleans()) else None
     # income exclusions registered by the user after the sectors exist ("declare everything, then customise"): the
     # government's or the firm's purchases are not to count in its income measure INC
     spec['user_exclusions'] = []
@@ -300,7 +321,7 @@ class Built(object):
         self.decl_order = []
 
 
-def build(spec, order_seed=None, maxtime=0, run=True, desc=None, rename=None, into=None, prefix_zone=None,
+def build(spec, order_seed='spec', maxtime=0, run=True, desc=None, rename=None, into=None, prefix_zone=None,
           zones_subset=None, hooks=None):
     """
     Build (and by default run main() with the given MaxTime) the economy.
@@ -318,6 +339,10 @@ def build(spec, order_seed=None, maxtime=0, run=True, desc=None, rename=None, in
                                                GoldStandardGovernment)
     from sfc_models.external import ExternalSector
 
+    if isinstance(order_seed, str):
+        # default: the declaration order carried by the spec itself (None = canonical order); C08 passes None and a key
+        # list explicitly for its two builds
+        order_seed = spec.get('order_keys')
     out = Built()
     mod = into if into is not None else Model()
     out.model = mod
@@ -605,10 +630,15 @@ def _construct(spec, out, mod, zsel, nm, dsc, make_external, order_seed, hooks, 
             hh = S[(a[0], a[1], 'hh0')]
             foreign = S[(b[0], b[1], 'bus')]
             mu = 'MU%d' % li
-            market.AddVariable(mu, dsc('propensity to import'), l['mu'])
-            market.AddSupplier(foreign, '%s*%s' % (mu, hh.GetVariableName('INC')))
-            if l['residual_explicit']:
-                market.AddSupplier(S[(a[0], a[1], 'bus')])
+            if l.get('residual') == 'foreign':
+                market.AddVariable(mu, dsc('share of the home producer'), l['mu'])
+                market.AddSupplier(S[(a[0], a[1], 'bus')], '%s*SUP_%s' % (mu, market.Code))
+                market.AddSupplier(foreign)
+            else:
+                market.AddVariable(mu, dsc('propensity to import'), l['mu'])
+                market.AddSupplier(foreign, '%s*%s' % (mu, hh.GetVariableName('INC')))
+                if l['residual_explicit']:
+                    market.AddSupplier(S[(a[0], a[1], 'bus')])
             if spec['zones'][b[0]]['countries'][b[1]]['bus']['kind'] == 'multi':
                 foreign.AddMarket(market)
     # ---- exchange rates
